@@ -31,7 +31,67 @@ def make_files(sb, rng, tier):
         e = sb.build(name, big, ["a", "b"], k, True)
         assert e.get("ok")
         files[name] = sb.path(name)
+    # multi-frame files whose LAST frame is short, so that it holds only the tail of the serialised table (the end
+    # of the last field(s)): damage confined to it leaves every earlier field intact
+    for name, k in (("tail64", 21), ("tail128", 35)):
+        base = gen.rand_seq(rng, 16000)
+        best = None
+        for step in range(60):
+            L = 9000 + 131 * step
+            s = [[base[:L]], [base[:L // 2] + gen.rand_seq(random.Random(step), 40)]]
+            sb.reset()
+            e = sb.build(name, s, ["a", "b"], k, True)
+            assert e.get("ok")
+            fr = frame_lengths(open(sb.path(name), "rb").read())
+            if len(fr) >= 2 and (best is None or fr[-1] < best[0]):
+                best = (fr[-1], L, s)
+            if len(fr) >= 2 and fr[-1] <= 1500:
+                break
+        sb.reset()
+        e = sb.build(name, best[2], ["a", "b"], k, True)
+        assert e.get("ok")
+        files[name] = sb.path(name)
+        vlib.log("%s: last frame holds %d uncompressed bytes" % (name, best[0]))
     return files
+
+
+def frame_lengths(data):
+    """uncompressed length of each data frame of a snappy frame-format file"""
+    out, i = [], 0
+    while i + 4 <= len(data):
+        ty = data[i]
+        ln = data[i + 1] | data[i + 2] << 8 | data[i + 3] << 16
+        body = data[i + 4:i + 4 + ln]
+        if ty == 0x00:                 # compressed: crc(4) + raw snappy, which starts with the varint uncompressed length
+            v, sh, j = 0, 0, 4
+            while True:
+                v |= (body[j] & 0x7f) << sh
+                sh += 7
+                if body[j] < 0x80:
+                    break
+                j += 1
+            out.append(v)
+        elif ty == 0x01:
+            out.append(ln - 4)
+        i += 4 + ln
+    return out
+
+
+def rewrite(sb, path, cmd):
+    """`ska weed` (filters only) / `ska delete` of sample b, written to a new file; the parsed result or None if refused"""
+    out = os.path.join(sb.dir, "rewritten.skf")
+    if os.path.exists(out):
+        os.remove(out)
+    if cmd == "weed":
+        wf = os.path.join(sb.dir, "weedfile.fa")
+        if not os.path.exists(wf):
+            vlib.write_fasta(wf, ["ACGTTGCATGCATCGATCGATCGTACGTAGCTAGCTAGCTAGCATCGATCGACTGCATGCTAGCTAGCTAGCTAGCATGCATCGA"])
+        rc, so, se = vlib.ska_cli(["weed", path, wf, "-o", out, "--min-freq", "0", "--filter", "no-filter"])
+    else:
+        rc, so, se = vlib.ska_cli(["delete", "-s", path, "-o", out, "b"])
+    if rc != 0 or not os.path.exists(out):
+        return None
+    return vlib.parse_nk(vlib.ska_cli(["nk", "--full-info", out])[1].decode())
 
 
 def run(run, tier, seed):
@@ -56,7 +116,7 @@ def run(run, tier, seed):
             if name.startswith("small"):
                 r = faults(path, "list")
             elif tier == "quick":
-                r = faults(path, "sample", n=5000, seed=seed)
+                r = faults(path, "sample", n=3000, seed=seed)
             else:
                 r = faults(path, "all", threads=16)
             results[name] = r
@@ -80,7 +140,8 @@ def run(run, tier, seed):
         for name, path in files.items():
             rc0, so0, _ = vlib.ska_cli(["nk", "--full-info", path])
             rc1, so1, _ = vlib.ska_cli(["align", path, "--min-freq", "0", "--filter", "no-filter"])
-            ref_out[name] = (so0, sorted(so1.split(b"\n")))
+            rc2, so2, _ = vlib.ska_cli(["distance", path, "--min-freq", "0"])
+            ref_out[name] = (so0, sorted(so1.split(b"\n")), so2, rewrite(sb, path, "weed"), rewrite(sb, path, "delete"))
         data = {n: open(p, "rb").read() for n, p in files.items()}
         picks = []
         for name, r in results.items():
@@ -101,13 +162,22 @@ def run(run, tier, seed):
             else:
                 raw[f["off"]] ^= 1 << f["bit"]
             open(dpath, "wb").write(bytes(raw))
-            for cmd in ("nk", "align", "merge", "merge2"):
+            for cmd in ("nk", "align", "merge", "merge2", "distance", "weed", "delete"):
                 if cmd == "nk":
                     rc, so, se = vlib.ska_cli(["nk", "--full-info", dpath])
                     same_out = so == ref_out[name][0]
                 elif cmd == "align":
                     rc, so, se = vlib.ska_cli(["align", dpath, "--min-freq", "0", "--filter", "no-filter"])
                     same_out = sorted(so.split(b"\n")) == ref_out[name][1]
+                elif cmd == "distance":
+                    rc, so, se = vlib.ska_cli(["distance", dpath, "--min-freq", "0"])
+                    same_out = so == ref_out[name][2]
+                elif cmd in ("weed", "delete"):
+                    # the commands that rewrite a file: what they write from a damaged copy must be what they write
+                    # from the original
+                    got = rewrite(sb, dpath, cmd)
+                    rc = 0 if got is not None else 1
+                    same_out = got is not None and got == ref_out[name][3 if cmd == "weed" else 4]
                 else:
                     mo = os.path.join(sb.dir, "mergeout")
                     if os.path.exists(mo + ".skf"):
